@@ -9,6 +9,7 @@ use nostr::{Event, EventId, JsonUtil, Timestamp, UnsignedEvent};
 use openmls::prelude::ApplicationMessage;
 
 use crate::MDK;
+use crate::error::Error;
 
 use super::Result;
 
@@ -49,6 +50,12 @@ where
         // This is a message from a group member
         let bytes = application_message.into_bytes();
         let mut rumor: UnsignedEvent = UnsignedEvent::from_json(bytes)?;
+
+        // The rumor id becomes the id and storage key of the stored message: a pre-set id
+        // must be the NIP-01 hash of the rumor's own fields.
+        rumor
+            .verify_id()
+            .map_err(|_e| Error::Message("Rumor id does not match its content".to_string()))?;
 
         self.verify_rumor_author(&rumor.pubkey, sender_credential)?;
 
